@@ -310,6 +310,14 @@ class Interp(object):
             if g is not None:
                 o.attrs['const'] = g.get('const', False)
                 init = g.get('init')
+                ty_ = g.get('ty', '')
+                if isinstance(init, list) and init and all(isinstance(x, list) for x in init) and re.match(r'^<\{ (\[\d+ x i8\](, )?)+ \}>$', ty_):
+                    # a character array with a zero tail is emitted as a packed struct of byte arrays: the same bytes, flattened
+                    flat = [b_ for part in init for b_ in part]
+                    if all(isinstance(x, int) for x in flat):
+                        init = flat
+                        ty_ = '[%d x i8]' % len(flat)
+                        g = dict(g, ty=ty_)
                 if isinstance(init, list) and init and all(isinstance(x, int) for x in init):
                     o.attrs['data'] = init
                     m = re.match(r'\[(\d+) x i(\d+)\]', g.get('ty', ''))
@@ -710,6 +718,11 @@ class Interp(object):
             # may overlap an unknown write
             return self.fresh_for_type(st, ty, 'ld')
         if not off.t and o.attrs.get('cstr_len') is None:
+            data0 = o.attrs.get('data')
+            eb0 = o.attrs.get('eltbytes', 1)
+            if data0 is not None and o.attrs.get('const') and nbytes == eb0 and int_bits(ty) == 8 * eb0 and off.c % eb0 == 0 and 0 <= off.c // eb0 < len(data0):
+                # a constant global read at a constant offset: its initialiser
+                return IntV(8 * eb0, Lin.const(data0[off.c // eb0]), 'u')
             if o.lazy or o.kind in ('param', 'ext', 'global'):
                 v = self.lazy_value(st, p.obj, off.c, ty, nbytes)
                 o.cells[off.c] = (nbytes, v)
@@ -2333,6 +2346,45 @@ class Interp(object):
                 self.region_write(st, inst, d, nl, ('havoc', 'snprintf'), 'snprintf')
             # returns the untruncated length; conversions of a floating-point value always produce at least one character
             return [(st, self.fresh_int(st, 32, 'printed', signed=True, lo=1, hi=(1 << 31) - 1))]
+        if name in ('strcat', 'strncat', 'strcpy', 'strncpy') and len(args) >= 2 and isinstance(args[0], PtrV) and args[0].obj is not None:
+            # C string writers: the bytes written are bounded by the lengths of the strings involved, not by the destination -
+            # the destination's capacity is an obligation (checked like any other store range)
+            d, src = args[0], args[1]
+            ls = self.strlen(st, inst, src, 1)
+            lsl = self.as_u(st, ls) if isinstance(ls, IntV) else None
+            nl = self.as_u(st, args[2]) if len(args) > 2 and isinstance(args[2], IntV) else None
+            start = ZERO
+            if name in ('strcat', 'strncat'):
+                # current length of the destination text: read off its known content, else a symbol below its capacity
+                cap = st.objs[d.obj].size if d.obj in st.objs else None
+                known = None
+                if cap is not None and not cap.t and not d.off.t and cap.c - d.off.c <= 4096:
+                    for k in range(cap.c - d.off.c):
+                        v = self.load(st, None, PtrV(d.obj, d.off + k), 'i8', 1)
+                        if not (isinstance(v, IntV) and not v.lin.t):
+                            break
+                        if v.lin.c == 0:
+                            known = k
+                            break
+                if known is not None:
+                    start = Lin.const(known)
+                else:
+                    a = self.fresh('dstlen')
+                    st.rng[a] = (0, MAXLEN)
+                    start = Lin.atom(a)
+            cl = self.fresh('catlen')
+            st.rng[cl] = (0, MAXLEN)
+            if lsl is not None:
+                st.assume_ge0(lsl - Lin.atom(cl))
+            if name in ('strncat', 'strncpy') and nl is not None:
+                st.assume_ge0(nl - Lin.atom(cl))
+            if name == 'strncpy' and nl is not None:
+                wlen = nl                                   # strncpy always writes exactly n bytes
+            else:
+                wlen = Lin.atom(cl) + 1                     # the characters and the terminator
+            st.ev(name, inst, d, src, nl, start)
+            self.region_write(st, inst, PtrV(d.obj, d.off + start), wlen, ('havoc', name), name)
+            return [(st, d)]
         if name == 'abs' or name == 'labs' or name == 'llabs':
             st.ev('abs', inst, args[0])
             return [(st, self.fresh_int(st, int_bits(inst.ty) or 32, 'abs', signed=True))]
